@@ -9,9 +9,12 @@ from harness import gen
 from harness.framework import Suite
 
 PID = "C18"
-READY = False
-LEAN_MODS = ["SwcVerif.Props.C18"]
-THEOREMS = []
+LEAN_MODS = ["SwcVerif.Props.C18", "SwcVerif.Props.C05"]
+THEOREMS = [
+    "C18.dsu_refines_partition", "C18.runOps_cons", "C18.invalid_rejected", "C18.hasCyclic_spec", "C18.isBifurcate_correct",
+    "C18.jumpPass_stop", "C18.getDsu_fixpoint", "C18.getDsu_sorted_forest_partial", "C18.repair_somas", "C18.repair_nearest_partial",
+    "C05.isSorted_iff",
+]
 TRUSTED = ["hand-written models Model/Dsu.lean of DisjointSetUnion, has_cyclic, is_bifurcate, get_dsu / is_single_root, mark_roots_as_somas_, "
            "link_roots_to_nearest_ (tied by the c18.* correspondence suites: union/find scripts, ALL parent tables with n ≤ 5, random larger ones, multi-root files)"]
 ASSUMPTIONS = [
